@@ -110,6 +110,14 @@ func (checkC08) Gen(seed uint64, tier string) (*Scenario, error) {
 	p.POver = 0.3
 	p.PBadOPR = 0.4
 	p.PSPRBad = 0.4
+	if rng.Intn(4) == 0 {
+		// the averaging era with long outages: conversions whose source or
+		// destination has no usable average must be rejected, never wedge a block
+		p.StartEra = eraPIP10 - 1 + rng.Intn(2)
+		p.AvgPeriod = []uint64{6, 12}[rng.Intn(2)]
+		p.POutage, p.OutageMax = 0.15, 2+rng.Intn(6)
+		p.PConv, p.TxMean = 0.9, 3+2*rng.Float64()
+	}
 	g := world.NewGen(seed, p)
 	// third parties also write *valid* entries of unusual shapes: the actors of
 	// the refinement checks (amounts at the edges of the funds checks, PEG
